@@ -46,9 +46,14 @@ func main() {
 	child := flag.Bool("child", false, "run exactly one history with -seed as history seed, to stdout")
 	jobs := flag.Int("j", 8, "parallel child processes")
 	replay := flag.String("replay", "", "replay the ops of a trace/replay file instead of generating")
+	restarts := flag.Bool("restarts", false, "with -replay: emulate a process restart after every operation")
+	twin := flag.String("twin", "", "compare a trace with its replay under restarts (crash-restart equivalence); prints TWIN lines")
 	flag.Parse()
+	if *twin != "" {
+		os.Exit(sim.Twin(os.Args[0], *twin, os.Stdout))
+	}
 	if *replay != "" {
-		os.Exit(sim.Replay(*replay, os.Stdout))
+		os.Exit(sim.ReplayOpt(*replay, os.Stdout, *restarts))
 	}
 	if *child {
 		wr := bufio.NewWriterSize(os.Stdout, 1<<20)
